@@ -463,6 +463,7 @@ Proof.
       specialize (Hwf _ N). specialize (Hsup _ N). cbn in Hwf, Hsup. rewrite FI in Hwf, Hsup.
       apply andb_true_iff in Hsup. tauto. }
     pose proof (fmp4_run_head_np repaired isLeading (fs_init f) HH) as NP.
+    destruct (fs_segs f) as [|sg0 sgs] eqn:SG; [split; [reflexivity|discriminate]|]. rewrite <- SG.
     destruct (fmp4_run_head repaired isLeading (fs_init f)) as [[[lead ts] init]| | |] eqn:E; cbn [bind];
       try (split; [auto|discriminate]).
     split; [reflexivity|]. intros h Eh. inversion Eh; subst. cbn. split; auto.
@@ -477,7 +478,7 @@ Qed.
 Lemma stream_head_noof : forall rp sc isLeading r, is_oof (stream_head rp sc isLeading r) = false.
 Proof.
   intros. unfold stream_head. destruct (nth_error _ _) as [[f|t]|]; auto.
-  - apply bind_noof; [apply fmp4_run_head_noof|]. intros [[lead ts] init] _. auto.
+  - destruct (fs_segs f); auto. apply bind_noof; [apply fmp4_run_head_noof|]. intros [[lead ts] init] _. auto.
   - destruct (tst_segs t); auto. apply bind_noof; [apply ts_initializeReader_noof|]. intros [lead ts] _; auto.
 Qed.
 
